@@ -114,6 +114,13 @@ CHECKS = {
         design="§3 C07",
         note="Same trusted base as C06.",
     ),
+    "C15": dict(
+        engine="schedwalk",
+        technique="stateless model checking of the implementation under a harness-controlled scheduler: threads (2 concurrent Chains.Add, optionally a reader) run only when the explorer opens their gate; scheduling points = entries of repository.Headers methods; DFS by replay over all schedules (unbounded for 2 threads with global-state memoisation: store digest + per-thread progress and read history; preemption bound 2 with a reader); lock-aware (a thread waiting for a lock held by a parked thread is disabled, found through goroutine wait reasons); invariant (structural validity, reader-observed tips) at every scheduling point, final store = some sequential order (all columns); plus a separate free-running -race pass of the netwalk rig with API readers during peer churn (a detector, reported as such)",
+        text="Exhaustive for every blueprint N=3 |W|=2 x every pair of submissions (incl. the same header twice) x third node stored before/absent (3600 scenarios). Interleavings inside one SQL statement are SQLite's. The race pass samples schedules.",
+        design="§3 C15, §2 E4",
+        note="Trusted: the cooperative scheduler's determinism guard (a replayed prefix that offers fewer choices is a harness error), goroutine wait reasons from runtime.Stack for lock detection, Go's race detector for the free-running pass.",
+    ),
 }
 
 NOT_YET = "check not built yet in this session (work in progress; see DESIGN.md §7 for the order of work)"
@@ -175,6 +182,8 @@ ENGINES = [
      "kind_free_text": "complete enumeration of finite input domains (wire frames and their single-fault mutations, 32-bit arithmetic domain, configuration keys x sources) against independent references"},
     {"name": "netwalk", "path": "harness/netwalk", "serves_properties": ["C06", "C07"],
      "kind_free_text": "explicit-state search over the P2P environment inside testing/synctest bubbles: real sync engines against scripted wire-level nodes, fake clock, quiescence barrier after every event, fair-closure liveness oracle in every state"},
+    {"name": "schedwalk", "path": "harness/schedwalk", "serves_properties": ["C11", "C15"],
+     "kind_free_text": "stateless model checking under a controlled scheduler: every interleaving of 2-3 threads at repository-call / notification granularity, replay-based DFS, preemption bounding, state memoisation, lock-aware enabledness"},
     {"name": "storewalk", "path": "harness/storewalk", "serves_properties": ["C01", "C02", "C03", "C04", "C08", "C13"],
      "kind_free_text": "explicit-state DFS over reachable header stores; successor = file copy of the parent's SQLite store + one real Chains.Add"},
 ]
